@@ -168,7 +168,9 @@ constexpr bool used(unsigned f, unsigned s)
         {                                                                                                                       \
             auto s = TAG ? L::SEV("tg") : L::SEV();                                                                             \
             if constexpr (NLAZY == 2) s << lazy_t();                                                                            \
-            s << a;                                                                                                             \
+            char abuf[4] = { 0, 0, 0, 0 }; /* the first piece comes from a partly filled char ARRAY: its text ends at the NUL */ \
+            for (unsigned i_ = 0; i_ < 3 && a[i_]; ++i_) abuf[i_] = a[i_];                                                      \
+            s << abuf;                                                                                                          \
             s << n;                                                                                                             \
             if constexpr (NLAZY == 1) s << lazy_t();                                                                            \
             s << c;                                                                                                             \
